@@ -144,7 +144,7 @@ def cases(tier, seed, shard, nshards):
                 yield {"k": "hostile", "v": enc(c + "2")}
                 yield {"k": "hostile", "v": enc("1" + c)}
         idx += 1
-    n_rand = tier_pick(tier, 3000, 120000) // nshards
+    n_rand = tier_pick(tier, 6000, 1000000) // nshards
     r = rng_for(seed, shard, "c15")
     for _ in range(n_rand):
         ln = r.choice([1, 1, 2, 2, 3, 4, 8, 30])
